@@ -6,15 +6,21 @@
            interpretation): no panic, no error, nothing dropped / duplicated / reordered;
    known : the program is in the open known-finding class "C02-reorder" (Canon.reorder_changes). *)
 From Coq Require Import List ZArith Bool String.
-From IB Require Import Util.J Engine.Val Engine.Lang Engine.Denote Engine.Decode Engine.Canon.
+From IB Require Import Util.J Engine.Val Engine.Lang Engine.Denote Engine.Decode Engine.Canon
+     Engine.Sorted.
 Import ListNotations.
 
-(* `header` (prepend a marker to every chunk) is chunk-sensitive: the list interpretation chunks
-   the WHOLE list, which is what a sequential run does; it is admitted in sequential cases only
-   (there the result must be exactly `denote`). Everything else must be element-wise. *)
+(* `header` (prepend a marker to every chunk), `rev` and `drop_last` are chunk-sensitive: the list
+   interpretation chunks the WHOLE list, which is what a sequential run does; they are admitted in
+   sequential cases only (there the result must be exactly `denote`). Everything else must be
+   element-wise. *)
 Definition c02_step (m : mode) (st : step) : bool :=
   elementwise_step st ||
-  match st, m with SMapBatches _ BHeader, MSeq => true | _, _ => false end.
+  match st, m with
+  | SMapBatches _ _, MSeq => true
+  | SMapValuesBatches _ (BEach _ | BRevChunk), MSeq => true   (* length-preserving only *)
+  | _, _ => false
+  end.
 
 Definition c02_program (m : mode) (steps : list step) : bool :=
   forallb (c02_step m) steps && try_only_last steps.
@@ -66,6 +72,32 @@ Definition check_C02 (kind : string) (input output : J) : verdict :=
             (reorder_changes s pre || reorder_changes s sa || reorder_changes s sb) false
         else malformed
     | _, _ => malformed
+    end
+  else if String.eqb kind "sorted" then
+    (* in = [src, steps, partitions_or_null, which]: the program collected through
+       collect_seq_sorted (which = 0, sequential), collect_par_sorted (1) or
+       collect_par_sorted_by_key (2; the rows must be pairs).
+       agree: the model's plain outcome, sorted by Sorted.sorted_collect;
+       prop : the sorted list interpretation - exactly, also for rows with equal keys *)
+    match input with
+    | JL [js; jst; jm; jw] =>
+        match dec_prog (JL [js; jst; jm]), dec_nat jw, dec_obs output with
+        | Some (s, steps, m), Some which, Some o =>
+            if c02_program m steps && negb (existsb is_try steps) && (which <=? 2)%nat
+               && (match which, m with O, MSeq => true | O, _ => false | _, MSeq => false | _, _ => true end)
+            then
+              let expect :=
+                match model_outcome m s steps with
+                | OOk rows => OOk (sorted_collect which rows)
+                | other => other
+                end in
+              V (obs_agree CExact expect o)
+                (obs_agree CExact (OOk (sorted_collect which (denote s steps))) o)
+                (reorder_changes s steps) false
+            else malformed
+        | _, _, _ => malformed
+        end
+    | _ => malformed
     end
   else if String.eqb kind "bigprog" then
     (* as "prog", the observed rows replaced by Canon.summary (big inputs) *)
